@@ -778,6 +778,11 @@ def programs(tier):
     reg("hstack([x2,y2])", lambda w, E: p_pub_many(w, [source(w, E, "x", (2,)), source(w, E, "y", (2,))], SIm, "hstack", lambda R: np.concatenate(R)), 2)
     reg("append(x2,y2)", lambda w, E: (lambda a, b: Prog(w.fn(IDm, "append")(w.fn(NC, "new_collection")(a.node), w.fn(NC, "new_collection")(b.node)).expr,
                                                             np.concatenate([a.ref, b.ref]), {**a.dsk, **b.dsk}))(source(w, E, "x", (2,)), source(w, E, "y", (2,))), 2)
+    CMm = "dask_array.reductions._cumulative"
+    reg("cumsum(x3,axis=0)", lambda w, E: p_pub(w, source(w, E, "x", (3,)), CMm, "cumsum", lambda X: X.accumulate(0, "add"), axis=0), 2)
+    reg("cumsum(x3,axis=0,method=blelloch)", lambda w, E: p_pub(w, source(w, E, "x", (3,)), CMm, "cumsum", lambda X: X.accumulate(0, "add"), axis=0, method="blelloch"), 2)
+    reg("cumsum(x2x2,axis=1)[a:b]", lambda w, E: p_slice(w, p_pub(w, source(w, E, "x", (2, 2)), CMm, "cumsum", lambda X: X.accumulate(1, "add"), axis=1), raw_index(E, (F,))), 5)
+    reg("diff(x3)", lambda w, E: p_pub(w, source(w, E, "x", (3,), lo=1), "dask_array.routines._diff", "diff", lambda X: X[1:] - X[:-1]), 4)
     reg("gradient(x2,axis=(0,))[0]", lambda w, E: p_gradient(w, E, source(w, E, "x", (2,), lo=2), (0,), 0), 3)
     reg("gradient(x2x2,2.0,axis=(1,0))[0]", lambda w, E: p_gradient(w, E, source(w, E, "x", (2, 2), lo=2), (1, 0), 0, 2.0), 4)
     reg("gradient(x2x2,2.0,axis=(1,0))[1]", lambda w, E: p_gradient(w, E, source(w, E, "x", (2, 2), lo=2), (1, 0), 1, 2.0), 4)
